@@ -120,10 +120,10 @@ def c16(tier, seed, replay=None):
     for o in keep:
         e_ = exp[o["id"]]["exp"]
         good = (not o["err"]) and o["shape"] == e_["shape"] and o["flat"] == e_["flat"] and o["extra_ok"]
-        if good != (o["id"] in accepted):
-            raise vlib.MachineryError("TLC and the Python mirror disagree on operator observation %d" % o["id"])
+        unnamed = good and o["id"] not in accepted
+        good = vlib.reconcile("operator observation %d" % o["id"], o["id"] in accepted, good)
         if not good:
-            why = o["err"] or ("shape %s, expected %s" % (o["shape"], e_["shape"]) if o["shape"] != e_["shape"] else
+            why = vlib.UNNAMED if unnamed else o["err"] or ("shape %s, expected %s" % (o["shape"], e_["shape"]) if o["shape"] != e_["shape"] else
                                ("values %s, expected %s" % (o["flat"][:8], e_["flat"][:8]) if o["flat"] != e_["flat"] else "primal / auxiliary value not returned untouched"))
             verdict.violation({"op": o["op"], "ins": o["ins"], "outs": o["outs"], "npos": o["lay"]["npos"], "pos": o["lay"]["pos"], "kw": o["lay"]["kw"]},
                               {"reason": why, "case": {k: o[k] for k in ("op", "ins", "outs", "lay", "scale")}, "observed": {"shape": o["shape"], "flat": o["flat"][:16]},
@@ -208,8 +208,8 @@ def c12(tier, seed, replay=None):
                 why.append("unflatten(flatten(v)) != v")
             if not o["commute_ok"]:
                 why.append("grad(f o unflatten)(flatten x) != flatten(grad f(x))")
-        if bool(why) == (o["id"] in accepted):
-            raise vlib.MachineryError("TLC and the Python mirror disagree on container observation %d: %s" % (o["id"], why))
+        if not vlib.reconcile("container observation %d %s" % (o["id"], why), o["id"] in accepted, not why) and not why:
+            why = [vlib.UNNAMED]
         if why:
             steps = sorted({st["s"] for t in o["prog"] for st in t["acc"]})
             verdict.violation({"tree_kind": o["tree"]["k"], "steps": steps, "outmode": o["outmode"]},
@@ -244,10 +244,10 @@ def c14_nondiff(verdict):
     accepted, g2, d2, _w, _inv = vlib.parallel_validate("TraceDispatch", files, cfg="SPECIFICATION Spec\n", njvm=1)
     for row in rows:
         ok = row["plain_eq"] and row["unboxed"] and row["blocks"]
-        if ok != (row["id"] in accepted):
-            raise vlib.MachineryError("TLC and the Python mirror disagree on non-differentiable row %s" % row)
+        unnamed = ok and row["id"] not in accepted
+        ok = vlib.reconcile("non-differentiable row %s" % row, row["id"] in accepted, ok)
         if not ok:
-            why = row["exc"] or ("value under tracing differs from NumPy's" if not row["plain_eq"] else
+            why = vlib.UNNAMED if unnamed else row["exc"] or ("value under tracing differs from NumPy's" if not row["plain_eq"] else
                                  ("a tracer was returned" if not row["unboxed"] else "derivative flow is not blocked: d/dx sum(x*f(x)) != f(x)"))
             verdict.violation({"prim": row["name"], "mode": row["mode"], "template": row["template"]}, {"reason": why, "row": row})
     return {"functions": len({r_["name"] for r_ in rows}), "rows": len(rows), "accepted": len(accepted), "states": d2, "transitions": g2}
@@ -274,10 +274,10 @@ def c15(tier, seed, replay=None):
             ok = row["outcome"] == "raised"
         else:
             ok = not (row["varies"] and row["outcome"] == "zero") and not (row["outcome"] == "derivative" and row["stable"] and not row["agrees"])
-        if ok != (row["id"] in accepted):
-            raise vlib.MachineryError("TLC and the Python mirror disagree on dispatch row %s" % row)
+        unnamed = ok and row["id"] not in accepted
+        ok = vlib.reconcile("dispatch row %s" % row, row["id"] in accepted, ok)
         if not ok:
-            why = ("an unsupported request did not raise: %s returned %s" % (row["name"], row.get("exc"))) if row["guard"] else \
+            why = vlib.UNNAMED if unnamed else ("an unsupported request did not raise: %s returned %s" % (row["name"], row.get("exc"))) if row["guard"] else \
                   ("silently treated as a constant although the NumPy value varies with this argument" if row["outcome"] == "zero"
                    else "returned a derivative that grossly disagrees with a stable finite difference of the NumPy function")
             verdict.violation({"ns": row["ns"], "name": row["name"], "prim": row["name"], "mode": row["mode"], "argpos": row["argpos"], "template": row["template"],
@@ -346,7 +346,8 @@ def c18(tier, seed, replay=None):
             ok = row["rejected"] >= thr
             why = "a planted defect (%s in %s) was rejected in only %d of %d runs (required with probability >= 0.99)" % (row["defect"], row["where"], row["rejected"], row["n"])
         if row["kind"] != "paths" and ok != (row["id"] in accepted):
-            raise vlib.MachineryError("TLC and the Python mirror disagree on checker row %s" % row)
+            if not vlib.reconcile("checker row %s" % row, row["id"] in accepted, ok):
+                ok, why = False, vlib.UNNAMED
         if not ok:
             verdict.violation({"kind": row["kind"], "arg": row.get("arg", "-"), "defect": row.get("defect", "-"), "where": row.get("where", "-"),
                                "mode": row.get("mode", "-")}, {"reason": why, "row": row})
